@@ -40,6 +40,10 @@ struct Rec
     int prog;             // made a progress event since its last block / yield
     uint64_t blockseq;
     int clock_polls;
+    uint64_t own_prog;    // progress events made by this thread
+    uint64_t poll_others; // progress by others seen at its previous clock read
+    int poll_k;           // consecutive clock reads with no progress by anyone else
+    long act;             // memory-changing atomic ops (watched or not) since its last yield
     // spin equivalence: last focused op that changed nothing
     const void* spin_ra;
     const void* spin_addr;
@@ -247,13 +251,14 @@ static void global_progress()
     last_progress_vclock = vclock_ns;
     for (int i = 0; i < nrec; ++i)
         if (i != self) R[i].yielded = 0;
-    if (self >= 0) { R[self].prog = 1; R[self].clock_polls = 0; }
+    if (self >= 0) { R[self].prog = 1; R[self].clock_polls = 0; ++R[self].own_prog; }
 }
 static void stuck() __attribute__((noreturn));
 static void stuck()
 {
     in_rt = 0;
     ctl = 0;    // callbacks run uncontrolled (they only read state)
+    if (getenv("PMC_STUCK_ABORT")) abort();
     if (stuck_cb) stuck_cb();
     die(OUT_STUCK, "stuck", "no progress: every thread is blocked, idle or spinning");
 }
@@ -420,7 +425,24 @@ static int wake_waiters(int why, const void* obj, int one)
 static void do_yield()
 {
     R[self].yielded = 1;
+    R[self].act = 0;
     reschedule(0);
+}
+// quantum expired although the thread keeps changing memory: it is working, not spinning. Give the
+// others a turn (their wait condition may have changed), but this is not an idle round.
+static void preempt_active()
+{
+    R[self].act = 0;
+    int nxt = -1;
+    for (int k = 1; k < nrec; ++k)
+    {
+        int i = (cur + k) % nrec;
+        if (R[i].st == RUNNABLE) { nxt = i; break; }
+    }
+    ops_since_switch = 0;
+    if (nxt < 0) return;
+    for (int i = 0; i < nrec; ++i) R[i].yielded = 0;
+    switch_to(nxt);
 }
 
 static inline int controlled() { return ctl && self >= 0 && !in_rt && R[self].st == RUNNABLE; }
@@ -492,8 +514,16 @@ static inline Pre pre_op(int kind, const volatile void* a, const void* ra)
     if (++ops_since_switch > QUANTUM)
     {
         in_rt = 1;
-        tracef("%s quantum expired\n", tname(self));
-        do_yield();
+        if (R[self].act > 0)
+        {
+            tracef("%s quantum expired (active)\n", tname(self));
+            preempt_active();
+        }
+        else
+        {
+            tracef("%s quantum expired (no memory change: spinning)\n", tname(self));
+            do_yield();
+        }
         in_rt = 0;
     }
     int w = nwatch ? find_watch(a) : -1;
@@ -512,6 +542,10 @@ static inline Pre pre_op(int kind, const volatile void* a, const void* ra)
         }
     }
     return p;
+}
+static inline void note_change(Pre p, bool changed)
+{
+    if (!p.skip && changed) ++R[self].act;
 }
 static inline void post_op(Pre p, int kind, const volatile void* a, const void* ra, uint64_t val,
     bool changed)
@@ -933,7 +967,18 @@ int clock_gettime(clockid_t clk, struct timespec* ts)
 {
     resolve();
     if (!(ctl && self >= 0 && !in_rt)) return real_clock_gettime(clk, ts);
-    vclock_ns += 100;
+    {
+        // a thread that reads the clock again while nobody else made progress is polling time:
+        // let virtual time pass faster and faster (legal: scheduling delays are arbitrary)
+        Rec& r = R[self];
+        uint64_t others = epoch - r.own_prog;
+        if (others == r.poll_others) { if (r.poll_k < 24) ++r.poll_k; }
+        else r.poll_k = 0;
+        r.poll_others = others;
+        uint64_t step = r.poll_k < 3 ? 100 : (1000ull << (r.poll_k - 3));
+        if (step > 10000000ull) step = 10000000ull;
+        vclock_ns += step;
+    }
     for (int i = 0; i < nrec; ++i)
         if (R[i].st == BLOCKED && R[i].deadline && R[i].deadline <= vclock_ns)
         {
@@ -1039,12 +1084,14 @@ void __tsan_init() {}
     {                                                                                              \
         Pre p = pre_op(K_STORE, a, RA);                                                            \
         T o = __atomic_exchange_n(a, v, __ATOMIC_SEQ_CST);                                         \
+        note_change(p, o != v);                                                                    \
         if (p.focus) post_op(p, K_STORE, a, RA, (uint64_t) v, o != v);                            \
     }                                                                                              \
     T __tsan_atomic##N##_exchange(volatile T* a, T v, int)                                         \
     {                                                                                              \
         Pre p = pre_op(K_RMW, a, RA);                                                              \
         T o = __atomic_exchange_n(a, v, __ATOMIC_SEQ_CST);                                         \
+        note_change(p, o != v);                                                                    \
         if (p.focus) post_op(p, K_RMW, a, RA, (uint64_t) o, o != v);                              \
         return o;                                                                                  \
     }                                                                                              \
@@ -1059,6 +1106,7 @@ void __tsan_init() {}
         Pre p = pre_op(K_CAS, a, RA);                                                              \
         T e = *c;                                                                                  \
         int ok = __atomic_compare_exchange_n(a, c, v, false, __ATOMIC_SEQ_CST, __ATOMIC_SEQ_CST);  \
+        note_change(p, ok && e != v);                                                              \
         if (p.focus) post_op(p, K_CAS, a, RA, (uint64_t) *c, ok && e != v);                       \
         return ok;                                                                                 \
     }                                                                                              \
@@ -1067,6 +1115,7 @@ void __tsan_init() {}
         Pre p = pre_op(K_CAS, a, RA);                                                              \
         T e = *c;                                                                                  \
         int ok = __atomic_compare_exchange_n(a, c, v, false, __ATOMIC_SEQ_CST, __ATOMIC_SEQ_CST);  \
+        note_change(p, ok && e != v);                                                              \
         if (p.focus) post_op(p, K_CAS, a, RA, (uint64_t) *c, ok && e != v);                       \
         return ok;                                                                                 \
     }                                                                                              \
@@ -1075,6 +1124,7 @@ void __tsan_init() {}
         Pre p = pre_op(K_CAS, a, RA);                                                              \
         T e = c;                                                                                   \
         int ok = __atomic_compare_exchange_n(a, &c, v, false, __ATOMIC_SEQ_CST, __ATOMIC_SEQ_CST); \
+        note_change(p, ok && e != v);                                                              \
         if (p.focus) post_op(p, K_CAS, a, RA, (uint64_t) c, ok && e != v);                        \
         return c;                                                                                  \
     }
@@ -1083,10 +1133,11 @@ void __tsan_init() {}
     {                                                                                              \
         Pre p = pre_op(K_RMW, a, RA);                                                              \
         T o = __atomic_##OP(a, v, __ATOMIC_SEQ_CST);                                               \
-        if (p.focus)                                                                               \
+        if (!p.skip)                                                                               \
         {                                                                                          \
             T nv = __atomic_load_n(a, __ATOMIC_SEQ_CST);                                           \
-            post_op(p, K_RMW, a, RA, (uint64_t) o, nv != o);                                       \
+            note_change(p, nv != o);                                                               \
+            if (p.focus) post_op(p, K_RMW, a, RA, (uint64_t) o, nv != o);                          \
         }                                                                                          \
         return o;                                                                                  \
     }
@@ -1138,6 +1189,7 @@ void pmc_ga_store(size_t n, void* p, void* val, int mo)
     Pre pr = pre_op(K_STORE, p, RA);
     bool ch = memcmp(p, val, n) != 0;
     memcpy(p, val, n);
+    note_change(pr, ch);
     if (pr.focus) post_op(pr, K_STORE, p, RA, lo64(val, n), ch);
 }
 void pmc_ga_exchange(size_t n, void* p, void* val, void* ret, int mo)
@@ -1150,6 +1202,7 @@ void pmc_ga_exchange(size_t n, void* p, void* val, void* ret, int mo)
     memcpy(tmp, p, n <= 64 ? n : 64);
     memcpy(p, val, n);
     memcpy(ret, tmp, n <= 64 ? n : 64);
+    note_change(pr, ch);
     if (pr.focus) post_op(pr, K_RMW, p, RA, lo64(ret, n), ch);
 }
 bool pmc_ga_cas(size_t n, void* p, void* exp, void* des, int s, int f)
@@ -1161,6 +1214,7 @@ bool pmc_ga_cas(size_t n, void* p, void* exp, void* des, int s, int f)
     bool ch = ok && memcmp(p, des, n) != 0;
     if (ok) memcpy(p, des, n);
     else memcpy(exp, p, n);
+    note_change(pr, ch);
     if (pr.focus) post_op(pr, K_CAS, p, RA, lo64(p, n), ch);
     return ok;
 }
